@@ -117,6 +117,7 @@ const STAGES: &[(&str, StageFn)] = &[
     ("c17.lib", c17::lib),
     ("c17.cli", c17::cli),
     ("c17.killed", c17::killed),
+    ("c17.sameinput", c17::sameinput),
     ("c17.nearby", c17::nearby),
     ("c17.pidreuse", c17::pidreuse),
     ("selfcheck", selfcheck::run),
